@@ -178,6 +178,7 @@ def run(ctx):
     shared.registry_hygiene(ctx, "R3")
     # ---- R6 every background task is owned (reachable by exit / stop) -----------------------------
     shared.background_tasks_owned(ctx, "R6")
+    shared.task_registry_ownership(ctx, "R8")
     # ---- R7 is_running claims liveness only with a live consumer task ------------------------------------
     from sa.util import canon_atom
     ir_ = p.cls("Interpreter").methods.get("is_running")
